@@ -88,11 +88,31 @@ def run(ctx):
     ], "REIDSSubroutineTranspiler.transpile")
     # ---- C08.J
     def jump_if(fn):
-        for n in ast.walk(fn):
-            if isinstance(n, ast.If):
-                cs = isinstance_classes(repo, m, n.test)
-                if cs and any("Branch" in c or "Jmp" in c for c in cs) and any(isinstance(x, ast.Attribute) and x.attr == "line" for b in n.body for x in ast.walk(b)):
-                    return n, cs
+        """the statements that run for jump instructions only, and the classes tested: whatever the test is written as
+        (an `if isinstance(...) or ...:` block, or a guard `if not (...): continue` followed by the statements)"""
+        def blocks(stmts):
+            yield stmts
+            for st in stmts:
+                for field in ("body", "orelse", "finalbody"):
+                    sub = getattr(st, field, None)
+                    if isinstance(sub, list) and sub and isinstance(sub[0], ast.stmt):
+                        yield from blocks(sub)
+
+        for block in blocks(fn.body):
+            region, classes = [], None
+            for st in block:
+                cs = None
+                for t, pol in G.path_conditions(fn, st):
+                    c_ = isinstance_classes(repo, m, t) if pol else None
+                    if c_ and any("Branch" in x or "Jmp" in x for x in c_):
+                        cs = c_
+                if cs:
+                    region.append(st)
+                    classes = cs
+            if region and any(isinstance(x, ast.Attribute) and x.attr == "line" for st in region for x in ast.walk(st)):
+                node = ast.If(test=ast.Constant(value=True), body=region, orelse=[])
+                ast.copy_location(node, region[0])
+                return node, classes
         return None, None
     nv_if, nv_set = jump_if(tp)
     re_if, re_set = jump_if(rt)
@@ -228,11 +248,12 @@ def run(ctx):
     ctx.check("C08.E", "transpile:result-stored", stored and tp.body.index(rl) > tp.body.index(rw), "the rewritten command list is not stored back (or targets are patched before the rewrite finished)", repo.loc(m, tp), trivial=True)
     # REIDS: same past-the-end handling
     ok_r = False
-    for n in ast.walk(re_if):
-        if isinstance(n, ast.If) and n is not re_if:
-            defs = {st.targets[0].id: st.value for st in re_if.body if isinstance(st, ast.Assign) and isinstance(st.targets[0], ast.Name)}
-            test = A.norm(A.expand(n.test, defs))
-            ok_r = "line.value==len(self._subroutine.instructions)" in test and any(isinstance(s2, ast.Assign) and isinstance(s2.value, ast.Constant) and s2.value.value is True for s2 in n.body)
+    rdefs = A.single_defs(rt)
+    for n in ast.walk(rt):
+        if isinstance(n, ast.Assign) and isinstance(n.value, ast.Constant) and n.value.value is True and isinstance(n.targets[0], ast.Name):
+            facts = [(A.norm(A.expand(t, rdefs)), pol) for t, pol in G.path_conditions(rt, n)]
+            if any(pol and ("line.value==len(self._subroutine.instructions)" in t_ or "len(self._subroutine.instructions)==" in t_ and "line.value" in t_) for t_, pol in facts):
+                ok_r = True
     ctx.check("C08.E", "REIDS:past-the-end-target-gets-a-no-op", ok_r, "the REIDS transpiler does not flag a jump to the position just past the end", repo.loc(m, re_if))
 
     # ---- C08.W
@@ -326,8 +347,8 @@ def check_scratch(ctx, nvt, rw):
     excl = set()
     for r in A.returns(gu):
         if isinstance(r.value, ast.Name):
-            for t, pol in G.enclosing_tests(gu, r):
-                if pol and isinstance(t, ast.Compare) and len(t.ops) == 1 and isinstance(t.ops[0], ast.NotIn) and A.norm(t.left) == r.value.id and A.is_self_attr(t.comparators[0]):
+            for t, pol in G.path_conditions(gu, r):
+                if (not pol) and isinstance(t, ast.Compare) and len(t.ops) == 1 and isinstance(t.ops[0], ast.In) and A.norm(t.left) == r.value.id and A.is_self_attr(t.comparators[0]):
                     excl.add(t.comparators[0].attr)
     ctx.check("C08.U", "get_unused_register:candidate-tested-against-a-set", len(excl) == 1,
               f"the scratch register is not returned under exactly one `reg not in self.<set>` test (found {sorted(excl)})", repo.loc(m, gu))
@@ -342,8 +363,9 @@ def check_scratch(ctx, nvt, rw):
             ov = st.target.id
             for x in ast.walk(st):
                 if isinstance(x, ast.Call) and isinstance(x.func, ast.Attribute) and A.is_self_attr(x.func.value, S) and x.func.attr in ("add", "update") and x.args and A.contains_name(x.args[0], ov):
-                    conds = [c_ for c_ in ast.walk(st) if isinstance(c_, ast.If) and any(y is x for y in ast.walk(c_))]
-                    adds_all = all(A.norm(c_.test) == f"isinstance({ov},Register)" and any(y is x for b_ in c_.body for y in ast.walk(b_)) for c_ in conds)
+                    # the only condition on recording an operand is that it is a Register (facts that hold at the call, inside the operand loop)
+                    facts = [(A.norm(t), pol) for t, pol in G.path_conditions(st, x)]
+                    adds_all = all(n_ == f"isinstance({ov},Register)" and pol for n_, pol in facts)
     ctx.check("C08.U", f"transpile:every-register-operand-recorded-in-{S}", adds_all,
               f"the rewrite loop does not add every Register operand of every instruction to self.{S}, the set the scratch register is chosen outside of: "
               "a register the program uses (e.g. one filled by `load`) can be picked as scratch and overwritten with `set <reg> 0`", repo.loc(m, rw),
